@@ -16,7 +16,7 @@ RULE = ("Cases = (kind, matrix) with kind in bu/bd (0/1, float64 or int64; compl
         "sum of numerators / sum of denominators with no per-node masking). Non-trivial = at least one triangle AND at least one node "
         "on no triangle; distinct by hash of (kind, matrix).")
 BOUNDS = {"exhaustive_quick": "graphs n<=5, digraphs n<=4", "exhaustive_thorough": "graphs n<=6, digraphs n<=4 (all), n=5 every 8th",
-          "random_n": "3..12", "rtol": 1e-10}
+          "random_n": "3..12 (3..40 and 101..130 in the large units)", "rtol": 1e-10}
 MIN_NONTRIVIAL = {"quick": 300, "thorough": 3000}
 RT, AT = 1e-10, 1e-12
 
@@ -164,16 +164,23 @@ def check(case, ctx):
 
 
 @st.composite
-def _adj(draw, nmax, directed):
-    fam = draw(st.sampled_from(["er", "er", "tree", "structured", "tri+pendant", "isolated"]))
-    if fam == "er":
+def _adj(draw, nmax, directed, nmin=3):
+    fam = draw(st.sampled_from(["er", "er", "tree", "structured", "tri+pendant", "isolated"])) if nmin <= 3 else \
+        draw(st.sampled_from(["tri+pendant", "tree", "lollipop"]))
+    if fam == "lollipop":
+        # a clique with a tail: nodes of large degree, of degree 2 and a leaf in one network
+        n = draw(st.integers(nmin, nmax))
+        c = draw(st.integers(4, 12))
+        A = gen.block_diag(gen.complete_adj(c), gen.path_adj(n - c))
+        A[c - 1, c] = A[c, c - 1] = True
+    elif fam == "er":
         A = draw(gen.er_adj(draw(st.integers(3, nmax)), directed))
     elif fam == "tree":
-        A = draw(gen.tree_chords_adj(draw(st.integers(3, nmax)), max_chords=2))
+        A = draw(gen.tree_chords_adj(draw(st.integers(nmin, nmax)), max_chords=2))
     elif fam == "structured":
         A, _ = draw(gen.structured_adj(3, nmax))
     elif fam == "tri+pendant":
-        n = draw(st.integers(4, max(4, nmax)))
+        n = draw(st.integers(max(4, nmin), max(4, nmax)))
         A = draw(gen.tree_adj(n))
         # close a few triangles on the tree: connect two neighbours of a node
         for _ in range(draw(st.integers(1, 3))):
@@ -189,31 +196,40 @@ def _adj(draw, nmax, directed):
         A = gen.block_diag(draw(gen.er_adj(m, directed, "dense")), np.zeros((1, 1), dtype=bool))
     n = len(A)
     if directed and fam not in ("er", "isolated"):
-        pr = gen.pairs(n, False)
+        pr = [(i, j) for (i, j) in gen.pairs(n, False) if A[i, j]]
         keep = draw(st.lists(st.integers(0, 3), min_size=len(pr), max_size=len(pr)))
         A = A.copy()
         for (i, j), k in zip(pr, keep):
-            if A[i, j]:
-                if k == 1:
-                    A[j, i] = False
-                elif k == 2:
-                    A[i, j] = False
+            if k == 1:
+                A[j, i] = False
+            elif k == 2:
+                A[i, j] = False
     if draw(st.booleans()):
         A = gen.apply_perm(A, draw(gen.perm(n)))
     return A
 
 
 @st.composite
-def cases(draw, nmax, kinds):
+def cases(draw, nmax, kinds, nmin=3):
     kind = draw(st.sampled_from(kinds))
     directed = kind in ("bd", "wd")
-    A = draw(_adj(nmax, directed))
+    A = draw(_adj(nmax, directed, nmin))
     if kind in ("bu", "bd"):
         W = draw(gen.weights_for(A, draw(st.sampled_from(["bin", "bin", "int"])), directed))
     elif kind in ("wu", "wd"):
         W = draw(gen.weights_for(A, draw(st.sampled_from(["dyadic", "float"])), directed))
     else:
         W = draw(gen.weights_for(A, "signed", False))
+    if kind not in ("bu", "bd") and draw(st.integers(0, 3)) == 0:
+        # a few connections weaker than the rest by twelve or more orders of magnitude (all exact powers of two)
+        f = draw(st.sampled_from([2.0 ** -40, 2.0 ** -56, 2.0 ** -34]))
+        pr = [(i, j) for (i, j) in gen.pairs(len(W), directed) if W[i, j] != 0]
+        pick = draw(st.lists(st.integers(0, 2), min_size=len(pr), max_size=len(pr)))
+        for (i, j), b in zip(pr, pick):
+            if b == 0:
+                W[i, j] *= f
+                if not directed:
+                    W[j, i] = W[i, j]
     if kind not in ("bu", "bd"):
         # the same network in a much smaller unit (still inside [0,1]): definitions are linear / invariant in the unit
         W = W * draw(st.sampled_from([1.0, 2.0 ** -30, 1.0, 2.0 ** -60, 2.0 ** -100]))
@@ -254,6 +270,7 @@ def units(tier):
         Unit("random-weighted", check, strategy=lambda: cases(10, ["wu", "wd"]), examples=(4000, 160000), shards=(8, 16)),
         Unit("random-signed", check, strategy=lambda: cases(10, ["sign"]), examples=(2000, 80000), shards=(8, 16)),
         Unit("random-n<=40", check, strategy=lambda: cases(40, ["bu", "bd", "wu", "wd"]), examples=(80, 1600), shards=(8, 16)),
+        Unit("random-n>100", check, strategy=lambda: cases(130, ["bu", "wu", "bu", "bd"], nmin=101), examples=(40, 320), shards=(8, 16)),
     ]
     if tier == "thorough":
         us.append(Unit("sampled-digraphs-n5", check, count=lambda t: _D5.total // 8, cases=_d5, shards=(16, 32),
